@@ -83,6 +83,19 @@ def _c07_zero():
         return {"input": {"table": tv, "observed": [3, 5], "combine": "fisher"}, "issue": "sim_npc global p-value is not 1/11 (observed row lost to rounding)", "returned": str(r)[:200]}
 
 
+def _c07_float32():
+    from permute import npc
+    st = {"i": -1}
+    def rnd(d):
+        st["i"] += 1; return d
+    tv = [[0, 4], [2, 1]]; ts = [3, 5]
+    tests = [(lambda d, c=c: np.float32(ts[c] if st["i"] < 0 else tv[st["i"]][c])) for c in range(2)]
+    e = npc.Experiment([0, 1], [[0], [1]], randomizer=npc.Experiment.Randomizer(randomize=rnd))
+    r = guarded(npc.sim_npc, e, tests, combine="fisher", reps=2)
+    if r[0] != "ok" or abs(r[1][0] - 1 / 3) > 1e-12:
+        return {"input": "sim_npc with test functions returning np.float32, table [[0,4],[2,1]], observed [3,5]", "issue": "global p-value is not 1/3 (float32 ranks lost the observed row)", "returned": str(r)[:200]}
+
+
 def _c09_order():
     from permute import npc
     rs = np.random.RandomState(4); distr = rs.uniform(size=(200, 3))
@@ -97,6 +110,15 @@ def _c10_minp():
     r = guarded(npc.westfall_young, e, t, method="minP", alternatives="two-sided", reps=4)
     if r[0] != "ok" or abs(r[1][0][1] - 0.6) > 1e-12:
         return {"input": "minP two-sided, table [[0,0,-1],[-2,2,1],[1,2,3],[3,0,0]], observed [1,3,-2]", "issue": "adjusted p-value of hypothesis 1 is not 0.6", "returned": str(r)[:300]}
+
+
+def _c10_float32():
+    from permute import npc
+    tv = [[-2, -2], [-2, 2], [2, 2], [0, -2], [-2, 2], [0, 0], [-1, -1], [1, -2], [-1, 2], [1, 1]]
+    e, t, _ = scripted_experiment(tv, [-2, -2], ["int", "f32"])
+    r = guarded(npc.westfall_young, e, t, method="minP", alternatives="two-sided", reps=10)
+    if r[0] != "ok" or abs(r[1][0][1] - 8 / 11) > 1e-12 or r[1][0][1] < r[1][1][1] - 1e-12:
+        return {"input": "minP two-sided, second test function returns np.float32", "issue": "adjusted p-value below the raw one (single-precision per-permutation p-values)", "returned": str(r)[:300]}
 
 
 def _c10_maxt():
@@ -143,9 +165,9 @@ CORPUS = {
             ("D5-strat2-less", "stratified_two_sample", _c02_less), ("D1-spearman-plus1", "spearman_corr", _c01_spearman)],
     "C06": [("D6-incidence-global-rng", "permute_incidence_fixed_sums", _c06_incidence)],
     "C19": [("D6-incidence-global-rng", "permute_incidence_fixed_sums", _c06_incidence), ("D6b-nonbinary", "permute_incidence_fixed_sums", _c19_nonbinary)],
-    "C07": [("D7-simnpc-zero", "sim_npc", _c07_zero)],
+    "C07": [("D7-simnpc-zero", "sim_npc", _c07_zero), ("D15-float32", "sim_npc", _c07_float32)],
     "C09": [("D8-fwer-order", "fwer_minp", _c09_order)],
-    "C10": [("D9a-minP", "westfall_young", _c10_minp), ("D9b-maxT", "westfall_young", _c10_maxt)],
+    "C10": [("D9a-minP", "westfall_young", _c10_minp), ("D9b-maxT", "westfall_young", _c10_maxt), ("D16-float32", "westfall_young", _c10_float32)],
     "C11": [("D10-ties", "adjust_p", _c11_ties)],
     "C12": [("D11-kwargs", "binom_conf_interval", _c12_kwargs)],
     "C13": [("D12-nan", "hypergeom_conf_interval", _c13_nan)],
